@@ -78,7 +78,7 @@ CLAIMED.update({
  "C20": _c("proof", "Theorems C20_escaping_not_applied_twice_partial / C20_rel_tokens_not_repeated: the three mechanisms the property names. C20_idempotent_if_attrs_stable: Sanitize(Sanitize(x)) = Sanitize(x) for every x and every policy without comments/raw-text elements whose attribute filter is idempotent on its own output; C20_strict (StrictPolicy) and C20_idempotent_plain_elements (policies whose elements carry no rewritten attribute) discharge that premise. C20_refuted_forced_attr_order: the property as stated is false on the current tree (known finding F15: a policy allowing only one of rel/target and forcing both reorders them on the second pass); the witness is computed on the model and replayed. Partial: the premise for URL / forced-attribute elements otherwise (UGCPolicy) is checked by the idempotence oracle on every case of the policy class, link grid included.",
            "DESIGN.md section 5 C20", TIE_NOTE, "Coq proof of the component idempotence lemmas + differential correspondence + idempotence oracle"),
  "C18": _c("proof", "Theorems C18_regexps_inert / C18_regexps_whole_value / C18_strippers_anchored / C18_keywords_inert / C18_unknown_property: every regexp of css/handlers.go used as a value acceptor matches the whole value and accepts no hostile string (all lengths, by reflection on the regenerated ASTs); "
-           "function-name strippers are anchored; keyword lists contain none of the characters every hostile value needs; the lookup falls back to reject-all. Partial: the composition of these blocks by the handlers' control flow is covered by the bounded-exhaustive search the property text describes (all 213 entries, hostile fragments at every position).",
+           "function-name strippers are anchored; keyword lists contain none of the six characters of which every hostile value needs one (C18_hostile_needs_danger, proved by reflection); the lookup falls back to reject-all. Partial: the composition of these blocks by the handlers' control flow is covered by the bounded-exhaustive search the property text describes (all 213 entries, hostile fragments at every position).",
            "DESIGN.md section 5 C18", "The translator classifies regexps by use (MatchString vs ReplaceAll/FindString) and recognises the GetDefaultHandler/BaseHandler shapes; the hostile language in Spec/CssInert.v is my reading of the property text. ",
            "Coq proof by reflection (verified regexp emptiness procedure) on translator-regenerated CSS regexps and keyword lists + bounded-exhaustive hostile-fragment search over all default handlers"),
  "C04": _c("proof", "Theorems C04_strict_text_only / C04_ugc_tags / C04_ugc_tables / C04_strict_no_markup / C04_strict_idempotent / C04_ugc_output_tokens / C04_ugc_pass_through over the model's build of the builder scripts regenerated from policies.go and helpers.go: StrictPolicy emits only escaped text; every tag UGCPolicy emits is in the documented vocabulary and not a forbidden element; "
